@@ -89,12 +89,20 @@ def propCall (x : Array Int) (off : Nat) (s : PropagatorAttrs OTok Int) (h : Hea
     let ap : Option OTok := if x.getD (off + 1) 0 != 0 then some (.mk (x.getD (off + 2) 0) [4, 4] []) else none
     ((propagatorSetApertureG E s h ap none).map fun r => (r.1, r.2.1, showLog r.2.2.2 ++ ";V"), 3)
 
+/-- the slots of the flag buffer that are set: "d.c d.c .." -/
+def propFlags (s : PropagatorAttrs OTok Int) (h : Heap OTok) : String :=
+  match s.generated_kernels.bind h.get with
+  | none => "?"
+  | some g =>
+    let on := (g.slots.reverse.foldl (fun (m : List (List Int × Bool)) p => (p.1, p.2.val != 0) :: m.filter (fun q => q.1 != p.1)) []).filter (·.2)
+    " ".intercalate ((on.map fun p => ".".intercalate (p.1.map toString)).mergeSort (· ≤ ·))
+
 partial def propRun (x : Array Int) (off n : Nat) (s : PropagatorAttrs OTok Int) (h : Heap OTok) (acc : List String) : List String :=
   if n = 0 then acc.reverse
   else
     match propCall x off s h with
     | (none, _) => ("RAISE" :: acc).reverse
-    | (some (s', h', t), k) => propRun x (off + k) (n - 1) s' h' (t :: acc)
+    | (some (s', h', t), k) => propRun x (off + k) (n - 1) s' h' ((t ++ ";" ++ propFlags s' h') :: acc)
 
 /-! ### the loss objects -/
 
@@ -213,7 +221,7 @@ def opsGenObj : List (String × Handler) := [
   -- gpo_fields  ->  the field names of the regenerated structure
   ("gpo_fields", fun _ => ",".intercalate propagatorFields),
   -- gpo_seq method type channels depths frames distances_given powers_given aperture_given impulse n {calls}
-  --   ->  init log | per call: stored attributes ; kind of the returned thing
+  --   ->  init log | per call: stored attributes ; kind of the returned thing ; the slots (depth.channel) of the flag buffer that are set
   ("gpo_seq", fun a => let x := a.toArray
     let nch := (x.getD 2 1).toNat
     let nd := x.getD 3 1
